@@ -30,13 +30,8 @@ fn in_valid_domain(full: &MuxScenario, results: &[CallResult]) -> bool {
     if sc.cfg.timescale == 0 {
         return false;
     }
-    // a write to a track id that only exists because an earlier add_track was rejected would
-    // shift ids: keep the accepted-ops view consistent (ids refer to accepted tracks in order)
-    let mut probe = sc.clone();
-    fit_durations(&mut probe);
-    if probe != *sc {
-        return false;
-    }
+    // (a history whose track duration does not fit the 64-bit header field is not excluded:
+    // the muxer has to reject the sample that would overflow it, not store something else)
     sc.ops.iter().all(|op| match op {
         Op::AddTrack(t) => t.timescale >= 1,
         _ => true,
